@@ -178,17 +178,18 @@ def seq_history(rng, nops, nids=6, monotone_ts=True, zero_ok=True, reads=True, v
                 o["px"] = rng.choice([PRICE - 2, PRICE - 1, PRICE, PRICE + 1, PRICE + 2])
             calls.append(Add(o))
         elif x < 58:
-            calls.append(Match(rng.choice([1, 1, 2, 3, 4, 6, 9, 15, 300])))
+            calls.append(Match(rng.choice([0, 1, 1, 2, 3, 4, 6, 9, 15, 300]) if zero_ok else rng.choice([1, 1, 2, 3, 4, 6, 9, 15, 300])))
         elif x < 66:
             calls.append(Cancel(i))
         elif x < 78:
             calls.append(Amend(i, rng.choice([0, 1, 2, 3, 5, 9, 14]) if zero_ok else rng.choice([1, 2, 3, 5, 9, 14])))
         elif x < 82:
-            calls.append(Move(i, rng.choice([PRICE, PRICE + 1])))
+            calls.append(Move(i, rng.choice([PRICE, PRICE + 1, PRICE - 1])))
         elif x < 86:
-            calls.append(Upq(i, rng.choice([PRICE, PRICE + 1]), rng.choice([1, 2, 4, 7])))
+            calls.append(Upq(i, rng.choice([PRICE, PRICE + 1]), rng.choice([0, 1, 2, 4, 7]) if zero_ok else rng.choice([1, 2, 4, 7])))
         elif x < 90:
-            calls.append(Replace(i, rng.choice([PRICE, PRICE + 1]), rng.choice([1, 2, 4, 7])))
+            calls.append(Replace(i, rng.choice([PRICE, PRICE + 1, PRICE - 1]), rng.choice([0, 1, 2, 4, 7]) if zero_ok else rng.choice([1, 2, 4, 7]),
+                                 side=rng.choice(["Buy", "Sell"])))
         elif reads:
             calls.append({"op": rng.choice(["read", "list", "snapshot", "display", "serialize", "stats", "snapjson"])})
     return calls
